@@ -377,6 +377,8 @@ Definition handle_e2e (cmd : str) (ts : list str) : option str :=
                  else if str_eqb op (S_ "startswith") then S_ "ok " ++ (if path_starts_with a b then S_ "1" else S_ "0")
                  else if str_eqb op (S_ "sort") then S_ "ok " ++ show_list (sort_paths args)
                  else if str_eqb op (S_ "ncomp") then S_ "ok " ++ show_dec (N.of_nat (length (components a)))
+                 else if str_eqb op (S_ "stripprefix") then S_ "ok " ++ match strip_prefix a b with Some e => S_ "+" ++ hex e | None => S_ "-" end
+                 else if str_eqb op (S_ "patheq") then S_ "ok " ++ (if path_eq a b then S_ "1" else S_ "0")
                  else S_ "badrequest"))
   else None.
 
